@@ -9,6 +9,9 @@ interpreter (a {-1,0,+1}-combination of integer cells found automatically) toget
                 positive minimum step per iteration (>= 11 bytes per record, >= 4 per option), or have a constant bound
   C18.calls     the number of walker invocations per record is a constant (no loop in parse_rr / parse_question; call sites counted)
 
+Both arithmetic configurations (overflow checks on / off) are ranked on every run, and a bound that is nothing but the range of the
+counter's integer type is not accepted as a loop bound.
+
 Together: steps <= a * len + b, printed in the evidence.  A walker whose best measure is only bounded by the buffer length
 (a constant bound lost) makes the product quadratic and is reported.
 """
@@ -20,9 +23,9 @@ DRIVERS = {DS + '::parse', DS + '::parse_opt'}
 
 
 def run(ctx):
-    for cfg in ctx.configs():
-        if cfg == 'hooks':
-            continue
+    # both arithmetic semantics on every run: with overflow checks a counter's own type range "bounds" a loop (the check panics
+    # first); without them it wraps, and only a genuine measure survives
+    for cfg in ['debug', 'release']:
         facts = ctx.facts(cfg)
         if facts.fn(DS + '::parse') is None:
             ctx.missing('C18.drivers', DS + '::parse')
